@@ -46,6 +46,14 @@ def run(module, fn, call):
 def main():
   if sys.argv[1] == "--file":
     rec = json.load(open(sys.argv[2]))
+    if "witness_on_compiled_extension" in rec:
+      # engine E2 (C09): re-run the edge history on the compiled extension
+      from vlib import e2_driver  # pylint: disable=g-import-not-at-top
+      call = rec["call"]
+      w = e2_driver.replay_history(os.environ["VERIF_CFG_DIR"], call["n"],
+                                   [list(e) for e in call["edges"]])
+      print(json.dumps({"ok": w is None, "disagreement": w}, indent=1)[:3000])
+      sys.exit(0 if w is None else 1)
     for k, v in rec.get("params", {}).items():
       os.environ["VERIF_PARAM_" + k] = str(v)
     os.environ["VERIF_TIER"] = rec.get("tier", "quick")
